@@ -427,8 +427,8 @@ func raceChild() {
 	case 11: // every handler value the library hands out, truly parallel requests with per-request data
 		var mu sync.Mutex
 		wrong := 0
-		for kind := 0; kind < 4; kind++ {
-			h := newHandlerRun(worldCfg{}, kind, true)
+		for kind := 0; kind < len(hkinds); kind++ {
+			h := newHandlerRun(base, kind, true)
 			par(8, 12, func(g, it int) {
 				r := g*1000 + it
 				run, obs := h.serve(r, newCoop(r, 0))
